@@ -297,6 +297,20 @@ def containers_and_linkers(ctx, spec, rng):
         df = lk.to_dataframe(**flags)
         if not check_frame(ctx, df, lk, [x for x in lk.names if internal or not x.startswith('_')], span_list, flags, 'linker.to_dataframe', case):
             return
+        # objects with nothing to put into data columns - a linker without variables of its own, a model whose variables are all
+        # internal (and not asked for): still one row per period, indexed by the span
+        bare = fsic.BaseLinker({'a': A(spec.make())}, name='BARE')
+        hidden = fsic.build_model([])(spec.make())
+        hidden.add_variable('_only', np.arange(n) * 1.0)
+        for what, obj, f in (('bare linker to_dataframe', bare, lambda: bare.to_dataframe(**flags)), ('bare linker to_dataframes[linker]', bare, lambda: bare.to_dataframes(**flags)['BARE']),
+                             ('internal-only model to_dataframe', hidden, lambda: hidden.to_dataframe(**flags)), ('internal-only model_to_dataframe', hidden, lambda: tools.model_to_dataframe(hidden, **flags))):
+            try:
+                t_ = f()
+            except Exception as e:
+                ctx.violation('export-raises', f'{what}({flags}) raised {type(e).__name__}: {e}', case)
+                return
+            if not check_frame(ctx, t_, obj, [x for x in obj.names if internal or not x.startswith('_')], span_list, flags, what, case):
+                return
 
 
 def symbol_round_trip(ctx, script):
